@@ -331,7 +331,15 @@ def analyse_step(interp, ctx, struct):
     start = wf0["global_start_sample"]
     chunk, nsub = wf0["needs_chunking"], wf0["num_subchannels"]
     seen_newfile = {True: 0, False: 0}
+    struct_any_path = struct
     for s, rv in ctx.paths:
+        def struct(label, ok, detail="", meta=None, _s=s):
+            """a clause evaluated on one explored path: when it fails, the solver decides (pc => false), because the path may have
+            survived only through a timed-out feasibility query (then it is proved infeasible) - on a feasible path the obligation fails"""
+            if ok:
+                struct_any_path(label, True, detail, meta)
+            else:
+                interp.oblige(_s, label, z3.BoolVal(False), line, kind="post", meta=dict(meta or {}, detail=str(detail)[:300]))
         wfin = s.mem[wobj].fields
         ix = s.ghost.get("index")
         nm = s.ghost.get("names")
@@ -485,6 +493,9 @@ def analyse_step(interp, ctx, struct):
         else:
             interp.oblige(s, L("index.appended_iff_rows"), R == 0, line, kind="post", meta=meta)
             struct(L("index.no_rows_only_in_existing_file"), not newfile, "a new file must receive at least one index row", meta)
+            if gh is None:
+                # a writer without an open file cannot take the no-rows branch: decided by the clause above
+                continue
             lastg_n, lastoff_n, nrows_n = gh.lastg, gh.lastoff, gh.nrows
         ghn = NS(fs=nm["fs"], fm=nm["fm"], t=nm["t"], T=nm["T"], len=len_after, nrows=nrows_n, lastg=lastg_n, lastoff=lastoff_n, X1=X1n, X2=X2n)
         # C19 / C05: the cursor is one past the last sample written by this step
